@@ -41,6 +41,8 @@ type know struct {
 	embargoes map[uint32]bool
 	pending   map[int]bool
 	handles   []bool // alive
+	hq        []int  // the bootstrap question of the handle, -1 once it has been answered
+	herr      []bool // ... with something else than results (the handle is an error client)
 	ncall     int
 	nboot     int
 	tag       uint32
@@ -127,6 +129,8 @@ func (k *know) observe(e evt, msgs []string, deliv string) {
 		k.down = true
 	case 'b':
 		k.handles = append(k.handles, true)
+		k.hq = append(k.hq, -2)
+		k.herr = append(k.herr, false)
 		k.nboot++
 	case 'c', 'p', 'h':
 		if e.tok[0] == 'h' {
@@ -159,6 +163,11 @@ func (k *know) observe(e evt, msgs []string, deliv string) {
 		switch {
 		case strings.HasPrefix(m, "B"):
 			k.cqs[u32(m[1:])] = &cq{boot: true}
+			for i := range k.hq {
+				if k.hq[i] == -2 {
+					k.hq[i] = int(u32(m[1:]))
+				}
+			}
 		case strings.HasPrefix(m, "C"):
 			f := strings.Split(m[1:], ",")
 			k.cqs[u32(f[0])] = &cq{}
@@ -200,6 +209,12 @@ func (k *know) observe(e evt, msgs []string, deliv string) {
 		}
 	}
 	if e.tok[0] == 'R' {
+		for i := range k.hq {
+			if k.hq[i] == int(u32(a[0])) {
+				k.hq[i] = -1
+				k.herr[i] = !strings.HasPrefix(a[2], "r10/c")
+			}
+		}
 		// a canceled question is removed by the Return without a second Finish
 		if c := k.cqs[u32(a[0])]; c != nil && c.canceled {
 			delete(k.cqs, u32(a[0]))
@@ -284,7 +299,14 @@ func (k *know) appCaps() string {
 		case c == 0:
 			cs = append(cs, fmt.Sprintf("l%d", k.r.Intn(nsrv)))
 		case c == 1 && len(hs) > 0:
-			cs = append(cs, fmt.Sprintf("h%d", hs[k.r.Intn(len(hs))]))
+			// only handles whose bootstrap has been answered with a capability (pending promises
+			// and error clients are not modelled as parameters)
+			h := hs[k.r.Intn(len(hs))]
+			if k.hq[h] != -1 || k.herr[h] {
+				cs = append(cs, "n")
+			} else {
+				cs = append(cs, fmt.Sprintf("h%d", h))
+			}
 		default:
 			cs = append(cs, "n")
 		}
